@@ -6,6 +6,7 @@ Local Open Scope N_scope.
 
 Inductive call :=
 | CAdvance | CSeek (t : N) | CFill | CBitset (m : N)
+| CDanger (t : N)   (* seek_danger: relational spec, see spec_check; not part of valid_prog *)
 | CCount.   (* count_including_deleted consumes the docset: last call of a program *)
 
 Inductive obs :=
@@ -13,6 +14,7 @@ Inductive obs :=
 | OBuf (b : list N) (d : N)             (* buffer contents, doc() afterwards *)
 | OMask (mask : list N) (ret d : N)     (* 16 words, returned doc, doc() afterwards *)
 | OCount (n : N)
+| ODanger (r : sd_result) (d : N)       (* result; doc() afterwards when Found, 0 (not observed) otherwise *)
 | OOutOfFuel.
 
 Definition guard (o : bool) (x : obs) (rest : list obs) : list obs := if o then x :: rest else [OOutOfFuel].
@@ -24,6 +26,8 @@ Fixpoint run (I : impl) (s : st I) (prog : list call) : list obs :=
   | CSeek t :: r => let s' := seek I t s in guard (ok I s') (ODoc (doc I s')) (run I s' r)
   | CFill :: r => let '(b, s') := fill_buffer I s in guard (ok I s') (OBuf b (doc I s')) (run I s' r)
   | CBitset m :: r => let '((mk, ret), s') := fill_bitset I m s in guard (ok I s') (OMask mk ret (doc I s')) (run I s' r)
+  | CDanger t :: r => let '(res, s') := seek_danger I t s in
+                      guard (ok I s') (ODanger res (match res with SdFound => doc I s' | SdLower _ => 0 end)) (run I s' r)
   | CCount :: _ => let '(n, s') := count I s in guard (ok I s') (OCount n) []
   end.
 
@@ -34,6 +38,7 @@ Fixpoint spec_run (l : list N) (prog : list call) : list obs :=
   | CSeek t :: r => let l' := ds_seek t l in ODoc (ds_doc l') :: spec_run l' r
   | CFill :: r => let '(b, l') := ds_fill_buffer l in OBuf b (ds_doc l') :: spec_run l' r
   | CBitset m :: r => let '(ms, l') := ds_fill_bitset m l in OMask (mask_of m ms) (ds_doc l') (ds_doc l') :: spec_run l' r
+  | CDanger _ :: _ => []
   | CCount :: _ => [OCount (ds_count l)]
   end.
 
@@ -45,6 +50,7 @@ Fixpoint valid_prog (l : list N) (prog : list call) : Prop :=
   | CSeek t :: r => ds_doc l <= t /\ t <= DOCSET_TERMINATED /\ valid_prog (ds_seek t l) r
   | CFill :: r => valid_prog (snd (ds_fill_buffer l)) r
   | CBitset m :: r => ds_doc l <= m /\ m + BLOCK_WINDOW <= DOCSET_TERMINATED /\ valid_prog (snd (ds_fill_bitset m l)) r
+  | CDanger _ :: _ => False
   | CCount :: r => r = []
   end.
 
@@ -55,13 +61,14 @@ Fixpoint valid_progb (l : list N) (prog : list call) : bool :=
   | CSeek t :: r => N.leb (ds_doc l) t && N.leb t DOCSET_TERMINATED && valid_progb (ds_seek t l) r
   | CFill :: r => valid_progb (snd (ds_fill_buffer l)) r
   | CBitset m :: r => N.leb (ds_doc l) m && N.leb (m + BLOCK_WINDOW) DOCSET_TERMINATED && valid_progb (snd (ds_fill_bitset m l)) r
+  | CDanger _ :: _ => false
   | CCount :: r => match r with [] => true | _ => false end
   end.
 
 Lemma valid_progb_spec l prog : valid_progb l prog = true -> valid_prog l prog.
 Proof.
   revert l. induction prog as [|c r IH]; intros l; [exact (fun _ => I)|].
-  destruct c; cbn [valid_progb valid_prog]; rewrite ?andb_true_iff, ?N.leb_le; try (intros H; repeat split; try apply IH; tauto).
+  destruct c; cbn [valid_progb valid_prog]; rewrite ?andb_true_iff, ?N.leb_le; try discriminate; try (intros H; repeat split; try apply IH; tauto).
   destruct r; [reflexivity|discriminate].
 Qed.
 
@@ -86,6 +93,7 @@ Section Equiv.
       destruct (fill_bitset I m s) as [[mk ret] s']. destruct (ds_fill_bitset m l) as [ms l']. cbn [fst snd] in *.
       injection H4 as -> ->.
       rewrite (c_ok _ _ _ _ C _ _ H5), (c_doc _ _ _ _ C _ _ H5). cbn [guard]. f_equal. now apply IH.
+    - destruct HV.
     - destruct (c_count _ _ _ _ C _ _ HR) as [H1 H2]. destruct (count I s) as [n s']. cbn [fst snd] in *.
       rewrite H2, H1. reflexivity.
   Qed.
@@ -98,6 +106,7 @@ Definition obs_terminated (o : obs) : Prop :=
   | OBuf b d => b = [] /\ d = DOCSET_TERMINATED
   | OMask mk ret d => mk = empty_mask /\ ret = DOCSET_TERMINATED /\ d = DOCSET_TERMINATED
   | OCount n => n = 0
+  | ODanger _ _ => False
   | OOutOfFuel => False
   end.
 
@@ -108,6 +117,7 @@ Proof.
   - constructor; [reflexivity|exact IH].
   - unfold ds_fill_buffer. rewrite firstn_nil, skipn_nil. constructor; [split; reflexivity|exact IH].
   - unfold ds_fill_bitset. cbn [ds_seek filter ds_doc]. constructor; [repeat split|exact IH].
+  - constructor.
   - constructor; [reflexivity|constructor].
 Qed.
 
@@ -138,3 +148,128 @@ Proof.
     pose proof (c_wf _ _ _ _ C _ _ HR) as Hwf. apply wf_docs_cons in Hwf.
     destruct (N.eqb_spec d DOCSET_TERMINATED); [lia|]. f_equal. apply IH. exact (c_advance _ _ _ _ C _ _ HR).
 Qed.
+
+(* ---------- programs with seek_danger: the specification is a relation on the observations ---------- *)
+Definition nl_eqb := list_eqb N.eqb.
+Definition sd_eqb (a b : sd_result) : bool :=
+  match a, b with SdFound, SdFound => true | SdLower x, SdLower y => N.eqb x y | _, _ => false end.
+Definition obs_eqb (a b : obs) : bool :=
+  match a, b with
+  | ODoc x, ODoc y => N.eqb x y
+  | OBuf b1 d1, OBuf b2 d2 => nl_eqb b1 b2 && N.eqb d1 d2
+  | OMask m1 r1 d1, OMask m2 r2 d2 => nl_eqb m1 m2 && N.eqb r1 r2 && N.eqb d1 d2
+  | OCount x, OCount y => N.eqb x y
+  | ODanger r1 d1, ODanger r2 d2 => sd_eqb r1 r2 && N.eqb d1 d2
+  | _, _ => false
+  end.
+Definition obsl_eqb := list_eqb obs_eqb.
+
+Lemma nl_eqb_refl l : nl_eqb l l = true.
+Proof. apply list_eqb_eq; [intros; apply N.eqb_eq|reflexivity]. Qed.
+Lemma obs_eqb_refl o : o <> OOutOfFuel -> obs_eqb o o = true.
+Proof.
+  destruct o; cbn [obs_eqb]; intros H; rewrite ?nl_eqb_refl, ?N.eqb_refl; try reflexivity; [|congruence].
+  destruct r; cbn [sd_eqb]; rewrite ?N.eqb_refl; reflexivity.
+Qed.
+
+(* [dang]: the previous seek_danger missed (only seek_danger may follow).
+   seek_danger t: Found iff t is a member (then doc() = t and the state is `seek t`);
+   otherwise a bound b with t < b <= first member >= t (TERMINATED if none). *)
+Fixpoint spec_check (l : list N) (dang : bool) (prog : list call) (os : list obs) : bool :=
+  match prog, os with
+  | [], [] => true
+  | CDanger t :: r, ODanger res d :: os' =>
+      if N.leb DOCSET_TERMINATED t then
+        match res with SdLower b => N.leb DOCSET_TERMINATED b && spec_check l true r os' | SdFound => false end
+      else
+        let l' := ds_seek t l in
+        match res with
+        | SdFound => mem t l && N.eqb d t && spec_check l' false r os'
+        | SdLower b => negb (mem t l) && N.ltb t b && N.leb b (ds_doc l') && spec_check l' true r os'
+        end
+  | CAdvance :: r, o :: os' => negb dang && obs_eqb o (ODoc (ds_doc (ds_advance l))) && spec_check (ds_advance l) false r os'
+  | CSeek t :: r, o :: os' => negb dang && obs_eqb o (ODoc (ds_doc (ds_seek t l))) && spec_check (ds_seek t l) false r os'
+  | CFill :: r, o :: os' =>
+      negb dang && obs_eqb o (OBuf (fst (ds_fill_buffer l)) (ds_doc (snd (ds_fill_buffer l)))) && spec_check (snd (ds_fill_buffer l)) false r os'
+  | CBitset m :: r, o :: os' =>
+      let l' := snd (ds_fill_bitset m l) in
+      negb dang && obs_eqb o (OMask (mask_of m (fst (ds_fill_bitset m l))) (ds_doc l') (ds_doc l')) && spec_check l' false r os'
+  | CCount :: _, [o] => negb dang && obs_eqb o (OCount (ds_count l))
+  | _, _ => false
+  end.
+
+(* what the caller must respect: ordinary calls only from a valid state with the usual preconditions;
+   seek_danger from a valid state with any target if the docset is strong, else a target >= doc;
+   after a miss only seek_danger with targets not below the missed one *)
+Fixpoint valid_dprog (strong : bool) (l : list N) (dang : bool) (tau : N) (prog : list call) : Prop :=
+  match prog with
+  | [] => True
+  | CDanger t :: r =>
+      (if dang then tau <= t else (strong = true \/ ds_doc l <= t)) /\
+      (if N.leb DOCSET_TERMINATED t then valid_dprog strong l true (if dang then tau else DOCSET_TERMINATED) r
+       else valid_dprog strong (ds_seek t l) (negb (mem t l)) t r)
+  | CAdvance :: r => dang = false /\ valid_dprog strong (ds_advance l) false 0 r
+  | CSeek t :: r => dang = false /\ ds_doc l <= t /\ t <= DOCSET_TERMINATED /\ valid_dprog strong (ds_seek t l) false 0 r
+  | CFill :: r => dang = false /\ valid_dprog strong (snd (ds_fill_buffer l)) false 0 r
+  | CBitset m :: r => dang = false /\ ds_doc l <= m /\ m + BLOCK_WINDOW <= DOCSET_TERMINATED /\ valid_dprog strong (snd (ds_fill_bitset m l)) false 0 r
+  | CCount :: r => dang = false /\ r = []
+  end.
+
+Section DangerPrograms.
+  Variables (I : impl) (strong : bool) (R : st I -> list N -> Prop) (D : st I -> N -> list N -> Prop).
+  Hypothesis C : contract I strong R D.
+
+  Theorem danger_program_sound : forall (prog : list call) (s : st I) (l : list N) (dang : bool) (tau : N),
+    (if dang then D s tau l else R s l) -> valid_dprog strong l dang tau prog ->
+    spec_check l dang prog (run I s prog) = true.
+  Proof.
+    induction prog as [|c r IH]; intros s l dang tau HS HV; [reflexivity|].
+    destruct c; cbn [run valid_dprog] in *.
+    - destruct HV as [-> HV]. pose proof (c_advance _ _ _ _ C _ _ HS) as HA.
+      rewrite (c_ok _ _ _ _ C _ _ HA), (c_doc _ _ _ _ C _ _ HA). cbn [guard spec_check negb andb obs_eqb].
+      rewrite N.eqb_refl. cbn [andb]. exact (IH _ _ false 0 HA HV).
+    - destruct HV as [-> [H1 [H2 HV]]]. rewrite <- (c_doc _ _ _ _ C _ _ HS) in H1.
+      pose proof (c_seek _ _ _ _ C _ _ t HS H1 H2) as HA.
+      rewrite (c_ok _ _ _ _ C _ _ HA), (c_doc _ _ _ _ C _ _ HA). cbn [guard spec_check negb andb obs_eqb].
+      rewrite N.eqb_refl. cbn [andb]. exact (IH _ _ false 0 HA HV).
+    - destruct HV as [-> HV]. destruct (c_fill_buffer _ _ _ _ C _ _ HS) as [H1 H2].
+      destruct (fill_buffer I s) as [b s']. cbn [fst snd] in *. subst b.
+      rewrite (c_ok _ _ _ _ C _ _ H2), (c_doc _ _ _ _ C _ _ H2). cbn [guard spec_check negb andb obs_eqb].
+      rewrite nl_eqb_refl, N.eqb_refl. cbn [andb]. exact (IH _ _ false 0 H2 HV).
+    - destruct HV as [-> [H1 [H2 HV]]]. rewrite <- (c_doc _ _ _ _ C _ _ HS) in H1.
+      destruct (c_fill_bitset _ _ _ _ C _ _ m HS H1 H2) as [H4 H5].
+      destruct (fill_bitset I m s) as [[mk ret] s']. cbn [fst snd] in *. injection H4 as -> ->.
+      rewrite (c_ok _ _ _ _ C _ _ H5), (c_doc _ _ _ _ C _ _ H5). cbn [guard spec_check negb andb obs_eqb].
+      rewrite nl_eqb_refl, !N.eqb_refl. cbn [andb]. exact (IH _ _ false 0 H5 HV).
+    - (* seek_danger *)
+      destruct HV as [Hpre HV]. cbn [spec_check].
+      destruct (N.leb_spec DOCSET_TERMINATED t) as [HT|HT].
+      + assert (HD : D s (if dang then tau else DOCSET_TERMINATED) l).
+        { destruct dang; [exact HS|]. apply (c_RD _ _ _ _ C _ _ _ HS). right.
+          rewrite (c_doc _ _ _ _ C _ _ HS). apply ds_doc_le_T. exact (c_wf _ _ _ _ C _ _ HS). }
+        destruct (c_danger_T _ _ _ _ C _ _ _ t HD HT) as [b [Hb [HbT HD']]].
+        destruct (seek_danger I t s) as [res s']. cbn [fst snd] in *. subst res.
+        rewrite (c_Dok _ _ _ _ C _ _ _ HD'). cbn [guard].
+        destruct (N.leb_spec DOCSET_TERMINATED t); [|lia]. destruct (N.leb_spec DOCSET_TERMINATED b); [|lia]. cbn [andb].
+        exact (IH _ _ true _ HD' HV).
+      + assert (HD : exists tau', tau' <= t /\ D s tau' l).
+        { destruct dang; [exists tau; tauto|]. destruct Hpre as [Hs|Hd].
+          - exists 0. split; [lia|]. apply (c_RD _ _ _ _ C _ _ _ HS). now left.
+          - exists t. split; [lia|]. apply (c_RD _ _ _ _ C _ _ _ HS). right. now rewrite (c_doc _ _ _ _ C _ _ HS). }
+        destruct HD as [tau' [Ht' HD]].
+        pose proof (c_danger _ _ _ _ C _ _ _ t HD Ht' HT) as Hd. pose proof (c_Dwf _ _ _ _ C _ _ _ HD) as Hwf.
+        destruct (seek_danger I t s) as [[|b] s'].
+        * destruct Hd as [Hin HR]. rewrite (c_ok _ _ _ _ C _ _ HR), (c_doc _ _ _ _ C _ _ HR). cbn [guard].
+          destruct (N.leb_spec DOCSET_TERMINATED t); [lia|].
+          rewrite (ds_seek_head_In t l (proj1 Hwf) Hin), N.eqb_refl. apply mem_In in Hin. rewrite Hin in *. cbn [andb negb] in *.
+          exact (IH _ _ false t HR HV).
+        * destruct Hd as [Hn [Hlt [Hle HD']]]. rewrite (c_Dok _ _ _ _ C _ _ _ HD'). cbn [guard].
+          destruct (N.leb_spec DOCSET_TERMINATED t); [lia|].
+          assert (Hm : mem t l = false). { destruct (mem t l) eqn:E; [apply mem_In in E; tauto|reflexivity]. }
+          rewrite Hm in *. cbn [negb andb] in *.
+          destruct (N.ltb_spec t b); [|lia]. destruct (N.leb_spec b (ds_doc (ds_seek t l))); [|lia]. cbn [andb].
+          exact (IH _ _ true t HD' HV).
+    - destruct HV as [-> ->]. destruct (c_count _ _ _ _ C _ _ HS) as [H1 H2]. destruct (count I s) as [n s']. cbn [fst snd] in *.
+      rewrite H2, H1. cbn [guard spec_check negb andb obs_eqb]. now rewrite N.eqb_refl.
+  Qed.
+End DangerPrograms.
